@@ -15,6 +15,8 @@
 package server
 
 import (
+	"errors"
+
 	"github.com/cybergarage/go-redis/redis"
 )
 
@@ -55,15 +57,31 @@ func NewZSetMember(score float64, data string) *ZSetMember {
 	}
 }
 
+// accepts reports whether NX, XX, GT and LT allow the member to be written.
+func (zset *ZSet) accepts(nm *ZSetMember, opt ZAddOption) bool {
+	cur, ok := zset.Score(nm.Member)
+	if !ok {
+		return !opt.XX
+	}
+	return !opt.NX && !(opt.GT && nm.Score <= cur) && !(opt.LT && cur <= nm.Score)
+}
+
 func (zset *ZSet) Add(nms []*ZSetMember, opt ZAddOption) int {
 	addedMemberCount := 0
 	for _, nm := range nms {
+		if !zset.accepts(nm, opt) {
+			continue
+		}
 		// A member occurs only once: an existing member gets the new score
 		// and is not counted as added.
 		for n, tm := range zset.members {
 			if tm.Member == nm.Member {
 				zset.members = append(zset.members[:n], zset.members[n+1:]...)
 				addedMemberCount--
+				if opt.CH && tm.Score != nm.Score {
+					// CH counts the members whose score changed too.
+					addedMemberCount++
+				}
 				break
 			}
 		}
@@ -241,6 +259,30 @@ func (server *Server) ZAdd(conn *redis.Conn, key string, members []*redis.ZSetMe
 	_, zset, err := db.GetZSetRecord(key)
 	if err != nil {
 		return nil, err
+	}
+	if opt.INCR {
+		// ZADD INCR acts like ZINCRBY on its single member and replies with
+		// the new score, or with nil when NX, XX, GT or LT leave the member alone.
+		if len(members) != 1 {
+			return nil, errors.New("INCR option supports a single increment-element pair")
+		}
+		nm := &ZSetMember{Score: members[0].Score, Member: members[0].Member}
+		if cur, ok := zset.Score(nm.Member); ok {
+			nm.Score += cur
+		}
+		if !zset.accepts(nm, opt) {
+			if len(zset.members) == 0 {
+				db.RemoveRecord(key)
+			}
+			return redis.NewNilMessage(), nil
+		}
+		zset.Add([]*ZSetMember{nm}, opt)
+		return redis.NewFloatMessage(nm.Score), nil
+	}
+	if opt.XX && len(zset.members) == 0 {
+		// XX never creates the sorted set.
+		db.RemoveRecord(key)
+		return redis.NewIntegerMessage(0), nil
 	}
 	return redis.NewIntegerMessage(zset.Add(members, opt)), nil
 }
